@@ -14,22 +14,24 @@ def shapes(p, rng, quick):
     ser, org, utils = cells.api()
     import a5
     S = []
-    places = [((12.3, 45.6), 9), ((-57.0, 20.0), 2), ((179.99, -16.5), 20), ((10.0, 89.9999), 29), ((-120.0, -89.99), 5), ((-93.0, 31.7), 1)]
-    places.append(((30.0, 10.0), 0))
+    places = [((12.3, 45.6), 9, None), ((-57.0, 20.0), 2, {"segments": 3}), ((179.99, -16.5), 20, {"closed_ring": False}),
+              ((10.0, 89.9999), 29, {"segments": 2}), ((-120.0, -89.99), 5, {"segments": 2}), ((-93.0, 31.7), 1, {"segments": 4}),
+              ((30.0, 10.0), 0, {"segments": 1})]
     if quick:
-        places = [places[0], places[1], places[3], places[6]]
-    opts = [None, {"segments": 3}, {"closed_ring": False}, {"segments": 2}, {"segments": 2}, {"segments": "auto"}, {"segments": 1}]
-    for n, ((lon, lat), r) in enumerate(places):
+        places = [places[0], places[2], places[3], places[6]]      # two of them more than 180 degrees of longitude apart
+    for (lon, lat), r, o in places:
         c = a5.lonlat_to_cell((lon, lat), r)
         S.append(["lonlat_to_cell", hx(lon), hx(lat), r])
         S.append(["cell_to_lonlat", "%016x" % c])
-        S.append(["cell_to_boundary", "%016x" % c, opts[n]])
+        S.append(["cell_to_boundary", "%016x" % c, o])
     c = a5.lonlat_to_cell((5.0, 5.0), 7)
-    S.append(["compact", ["%016x" % x for x in ser.cell_to_children(c)]])
     S.append(["uncompact", ["%016x" % c, "%016x" % ser.cell_to_parent(c)], 8])
     S.append(["cell_to_children", "%016x" % c, 9])
-    S.append(["cell_to_parent", "%016x" % c, 3])
+    # regression pair of the fixed finding (module-level scratch vectors): lonlat_to_cell((12.3, 45.6), 9) is place 0
+    S.append(["cell_to_boundary", "2a2a000000000000", None])
     if not quick:
+        S.append(["compact", ["%016x" % x for x in ser.cell_to_children(c)]])
+        S.append(["cell_to_parent", "%016x" % c, 3])
         S.append(["get_res0_cells"])
         S.append(["cell_area", 7])
         S.append(["hex_to_u64", "%016x" % c])
@@ -56,6 +58,13 @@ def parallel(jobs, nproc=12):
             k = futs[fu]
             for j, r in enumerate(fu.result()):
                 out[k + j * nproc] = r
+    # a child that died (out of memory, interrupted pipe) is retried once on its own
+    for n, r in enumerate(out):
+        if isinstance(r, dict) and str(r.get("bits", "")).startswith("forkfail"):
+            rr = _worker([jobs[n]])[0]
+            if isinstance(rr, dict) and str(rr.get("bits", "")).startswith("forkfail"):
+                raise core.MachineryError("forked child failed twice: %r" % (rr,))
+            out[n] = rr
     return out
 
 
@@ -67,6 +76,13 @@ def run(v):
     S = shapes(p, rng, quick)
     names = [calls.canon(s)[:70] for s in S]
     # sequential references (cold, and warmed by each possible B)
+    import time as _tm
+    _clock = [_tm.time()]
+    stage = {}
+
+    def lap(name):
+        stage[name] = round(_tm.time() - _clock[0], 1)
+        _clock[0] = _tm.time()
     seq_cold = parallel([{"fn": "seq", "args": [a, None]} for a in S])
     ref = [r["a"] for r in seq_cold]
     # B3: record the shared-access programs of every shape (cold and warm)
@@ -85,12 +101,14 @@ def run(v):
             nlines[(i, w)] = r["lines"]
             if r.get("rebinds"):
                 rebinding.setdefault(i, set()).update(r["rebinds"])
-    pairs = [(i, j, w) for i in range(len(S)) for j in range(len(S)) for w in (False, True)]
+    lap("record")
+    pairs = [(i, j, w) for i in range(len(S)) for j in range(len(S)) for w in (False, True) if not (quick and w and i != j and (i + j) % 3)]
     tl_pairs = [{"A": progs[(i, w)], "B": progs[(j, w)]} for (i, j, w) in pairs]
     json.dump({"pairs": tl_pairs, "none": calls.digest(None)[:8]}, open(d + "/progs.json", "w"))
     res = core.run_tlc(d, "A5Threads", cfg="MC_Threads.cfg", env={"PROGS": d + "/progs.json"}, timeout=2400, heap="16g")
     core.require_clean(res, "MC_Threads")
     v.add_tlc("MC_Threads", res, {"pairs": len(pairs), "MaxSwitch": 2, "shapes": len(S)})
+    lap("tlc")
     flagged = {}
     byloc = {}
     strong = {}
@@ -158,7 +176,7 @@ def run(v):
                 jobs.append({"fn": "single", "args": [S[i], S[j], kk, False, "line"]})
                 meta.append((i, j, False, kk, "line"))
     # keep the thorough tier inside its time budget: a uniform sample of the window points when there are too many
-    cap_fill = 2500 if quick else 45000
+    cap_fill = 1500 if quick else 45000
     if len(jobs) - n_before > cap_fill:
         keep = set(rng.sample(range(n_before, len(jobs)), cap_fill))
         jobs = jobs[:n_before] + [jb for k, jb in enumerate(jobs) if k >= n_before and k in keep]
@@ -169,10 +187,12 @@ def run(v):
     djobs, dmeta = [], []
     for i in range(len(S)):
         for j in range(len(S)):
-            for w in ((False, True) if (not quick or (i + j) % 2 == 0) else (False,)):
-                djobs.append({"fn": "dense", "args": [S[i], S[j], w]})
+            for w in ((False, True) if (not quick or i == j or (i + j) % 4 == 0) else (False,)):
+                every = max(1, nlines[(i, False)] * nlines[(j, False)] // 150000000)      # keep one dense run within a few seconds
+                djobs.append({"fn": "dense", "args": [S[i], S[j], w, every]})
                 dmeta.append((i, j, w))
-    dres = parallel(djobs, nproc=14)
+    dres = parallel(djobs, nproc=16)
+    lap("dense")
     lines_total = 0
     suspects = []
     for (i, j, w), r in zip(dmeta, dres):
@@ -196,13 +216,14 @@ def run(v):
         for kk in pts:
             jobs.append({"fn": "single", "args": [S[i], S[j], kk, w, "line"]})
             meta.append((i, j, w, kk, "line"))
-    nsample = 6 if quick else 60
+    nsample = 3 if quick else 60
     for (i, j, w), r in zip(dmeta, dres):
         if r["lines"] > 0:
             for kk in rng.sample(range(1, r["lines"] + 1), min(nsample, r["lines"])):
                 jobs.append({"fn": "single", "args": [S[i], S[j], kk, w, "line"]})
                 meta.append((i, j, w, kk, "line"))
-    sres = parallel(jobs, nproc=14)
+    sres = parallel(jobs, nproc=16)
+    lap("single")
     n_single = len(jobs)
     for (i, j, w, kk, gran), r in zip(meta, sres):
         badA = r["a"] != ref[i]
@@ -260,11 +281,14 @@ def run(v):
                                                   "A_result": r["apreview"], "what": "A had checked a shared cache for its entry; B (the call that makes the cache evict) ran at A's k-th shared access"},
                             {"check": "C16", "mode": "evict", "prefix": prefix, "A": Ad, "B": Bd, "k": kk}, {"clause": "C16.preempt"})
         v.traces += len(ejobs)
+    lap("evict")
     # ---- real threads, 1 microsecond switch interval
     tres = parallel([{"fn": "threads", "args": [S, 8, (250 if quick else 6000), 1e-6]}], nproc=1)[0]
     if tres["nbad"]:
         v.violation("C16.threads", {"mismatches": tres["nbad"], "examples": tres["bad"][:4]}, {"check": "C16", "mode": "threads", "shapes": S}, {"clause": "C16.threads"})
     v.traces += len(djobs) + n_single + 1
+    lap("threads")
+    v.cov["stage_seconds"] = stage
     v.cov["call_shapes"] = len(S)
     v.cov["ordered_pairs_x_cache_state"] = len(djobs)
     v.cov["line_preemption_points_covered_densely"] = lines_total
